@@ -54,6 +54,9 @@ func c01build() {
 			}
 			add("Chtimes/"+sit, setup, fsx.Step{K: "Chtimes", P: t, MTime: 1234567890}, fsx.Step{K: "Stat", P: t})
 			add("Chtimes-zero-atime/"+sit, setup, fsx.Step{K: "Chtimes", P: t, MTime: 1234567891, N: 1}, fsx.Step{K: "Stat", P: t})
+			// the epoch itself and a date before it are ordinary modification times (reproducible archives use 0)
+			add("Chtimes-epoch/"+sit, setup, fsx.Step{K: "Chtimes", P: t, MTime: 0}, fsx.Step{K: "Stat", P: t}, fsx.Step{K: "Chmod", P: t, Perm: 0o700})
+			add("Chtimes-before-epoch/"+sit, setup, fsx.Step{K: "Chtimes", P: t, MTime: -86400 * 365}, fsx.Step{K: "Stat", P: t})
 			add("Stat/"+sit, setup, fsx.Step{K: "Stat", P: t})
 			add("ReadDir/"+sit, setup, fsx.Step{K: "ReadDir", P: t})
 			add("ReadFile/"+sit, setup, fsx.Step{K: "ReadFile", P: t})
@@ -83,6 +86,11 @@ func c01build() {
 			add("Rename-grandchild-onto-ancestor", s, fsx.Step{K: "Rename", P: "a/b/c", P2: "a"})
 			add("Rename-dir-keeps-subtree", s, fsx.Step{K: "Rename", P: "a", P2: "c"}, fsx.Step{K: "ReadFile", P: "c/b/c"}, fsx.Step{K: "Rename", P: "c/b", P2: "ab"}, fsx.Step{K: "ReadDir", P: "."})
 			add("Rename-lookalike-sibling", append(s, fsx.Step{K: "WriteFullFile", P: "ab", Data: "look", Perm: 0o644}), fsx.Step{K: "Rename", P: "a", P2: "b"}, fsx.Step{K: "ReadFile", P: "ab"})
+			// valid names with characters that mean something to some operating system, but not to a file system path
+			for _, n := range []string{`a\b`, `a:b`, `C:`, `..a`, `a..`, `...`, `a b`, "ü", `\`} {
+				add("unusual-name/"+n, nil, fsx.Step{K: "Mkdir", P: n, Perm: 0o755}, fsx.Step{K: "WriteFullFile", P: n + "/" + n, Data: "x", Perm: 0o644}, fsx.Step{K: "Stat", P: n + "/" + n},
+					fsx.Step{K: "Rename", P: n + "/" + n, P2: "c"}, fsx.Step{K: "Rename", P: "c", P2: n + "/c" + n}, fsx.Step{K: "ReadDir", P: n}, fsx.Step{K: "MkdirAll", P: n + "/" + n + "/" + n, Perm: 0o700}, fsx.Step{K: "RemoveAll", P: n})
+			}
 			// a directory moved into a directory whose name merely starts with the same characters
 			add("Rename-into-lookalike-dir", append(s, fsx.Step{K: "Mkdir", P: "ab", Perm: 0o755}, fsx.Step{K: "Mkdir", P: "ab/c", Perm: 0o755}), fsx.Step{K: "Rename", P: "a", P2: "ab/b"}, fsx.Step{K: "ReadFile", P: "ab/b/b/c"}, fsx.Step{K: "Rename", P: "ab/c", P2: "ab/b/c"})
 			// the parent goes away (renamed, removed) between two calls of the same kind below it: nothing remembered from the
